@@ -930,6 +930,9 @@ iwrc iwfs_exfile_open(IWFS_EXT *f, const IWFS_EXT_OPTS *opts) {
 finish:
   if (rc) {
     if (f->impl) {
+      if (f->impl->file.impl) { // opened already: release the descriptor and the file lock
+        f->impl->file.close(&f->impl->file);
+      }
       _exfile_destroylocks(f->impl);
       free(f->impl);
       f->impl = 0;
